@@ -48,7 +48,11 @@ static rc::Gen<C> genC() {
   gf::Opts o; o.max_cols = 12; o.max_rows = 120; o.max_rgs = 2; o.max_pages = 8; o.thrift_extras = false; o.layouts = false; o.stats = false;
   // a third of the files hold string columns only (per-column payload copies, retained page buffers) and at least four of them
   gf::Opts so = o; so.types = {pq::BYTE_ARRAY}; so.min_cols = 4;
-  return rc::gen::mapcat(rc::gen::weightedOneOf<pw::FileSpec>({{2, gf::specGen(o)}, {1, gf::specGen(so)}}), [](const pw::FileSpec &fs0) {
+  // page headers as other writers produce them: min/max statistics of (long) string values and unknown fields make a header
+  // longer than the reader's first read window, so that reading one header takes several stream operations
+  gf::Opts ho = so; ho.stats = true; ho.thrift_extras = true; ho.min_cols = 3;
+  auto longHeaders = rc::gen::map(gf::specGen(ho), [](const pw::FileSpec &f0) { pw::FileSpec f = f0; for (auto &rg : f.row_groups) for (auto &cs : rg) { cs.page_stats = true; } return f; });
+  return rc::gen::mapcat(rc::gen::weightedOneOf<pw::FileSpec>({{4, gf::specGen(o)}, {2, gf::specGen(so)}, {2, longHeaders}}), [](const pw::FileSpec &fs0) {
     pw::FileSpec fs = fs0;
     int nl = (int)pw::leaves(fs.root).size();
     auto proj = rc::gen::weightedOneOf<std::vector<int>>({{4, rc::gen::just(std::vector<int>{})}, {1, rc::gen::container<std::vector<int>>(irange(0, nl - 1))}});
